@@ -105,12 +105,12 @@ def take_first(generator, n):
     ret = []
     if n <= 0:
         return ret
-    for i, task in enumerate(generator):
+    for task in generator:
         value = yield task
         if value is END_OF_GENERATOR:
             continue
         ret.append(value)
-        if i == n - 1:
+        if len(ret) == n:
             break
     return ret
 
